@@ -17,7 +17,7 @@ func init() {
 		Explanation: "Decides the path/typestate skeleton of the source life cycle for every path and every data-source implementation: " +
 			"(R1) in the start function every error return after the state became Starting resets the state to Inactive, the run-done wait group is balanced on every exit (Add without Done only on the success exit that starts the core loop), and the core loop is started only after the state became Active; " +
 			"(R2) the core loop defers the deactivation (state Inactive + WaitGroup.Done) at entry, before any blocking operation, so every exit including panics performs it; " +
-			"(R3) Stop: life-cycle state is written only with the state mutex held, every function that locks a mutex releases it exactly once on every path, no blocking operation (WaitGroup.Wait, channel operation) happens with the state mutex held, the abort channel is closed only through the close-once helper and only with the mutex held, Stop waits for the run-done barrier after releasing the mutex, and the abort / next-block channels are re-made on every start; " +
+			"(R3) Stop: life-cycle state is written only with the state mutex held, every function that locks a mutex releases it exactly once on every path, no blocking operation (WaitGroup.Wait, channel operation) happens with the state mutex held, the abort channel is closed only through the close-once helper (or the same idiom written in place: close in the default arm of a non-blocking receive on that channel) and only with the mutex held, Stop waits for the run-done barrier after releasing the mutex, and the abort / next-block channels are re-made on every start; " +
 			"(R4) abort => end-of-data chain: in every looping producer goroutine the abort arm leads on every path to closing the next-block channel or an intermediate channel whose every receiver, having received, either forwards a block or closes the next link before returning; " +
 			"(R5) resources acquired by a start step and not released by that step are released on every failing exit of the start sequence. " +
 			"Does not decide: deadlock freedom and termination over all interleavings (a model-checking question), goroutine census at run time.",
@@ -26,7 +26,7 @@ func init() {
 			"C10.R2 defer of the deactivating call in the entry block of the core loop before any blocking instruction",
 			"C10.R3a lockset dataflow: every Lock is released on all paths; stores to the life-cycle state field only with the mutex held",
 			"C10.R3b no WaitGroup.Wait / channel send / receive / blocking select while the state mutex is held (intraprocedural + callees to depth 3)",
-			"C10.R3c who-may-close the abort channel: only the close-once helper (non-blocking receive guard), called with the mutex held; Stop: Stopping store and abort close precede the barrier wait",
+			"C10.R3c who-may-close the abort channel: only the close-once helper (non-blocking receive guard) or that idiom in place, with the mutex held; Stop: Stopping store and abort close precede the barrier wait",
 			"C10.R3d abort and next-block channels are (re)made on every success path of the per-start preparation step",
 			"C10.R3e lock re-entrancy: no call under a mutex reaches a Lock of the same mutex of the same object",
 			"C10.R3f check-then-act: a store of Starting/Stopping is dominated by a load of the state made in the same critical section (no Unlock between the test and the transition)",
